@@ -269,7 +269,7 @@ func (pm *pathManager) doReloadConf(newPaths map[string]*conf.Path) {
 			if pathConfCanBeUpdated(oldPathConf, newPathConf) &&
 				slices.Equal(captureGroups(pa.matches), captureGroups(newMatches)) {
 				pa.confName = newPathConf.Name
-				go pa.reloadConf(newPathConf)
+				pa.reloadConf(newPathConf)
 				continue
 			}
 
@@ -286,7 +286,7 @@ func (pm *pathManager) doReloadConf(newPaths map[string]*conf.Path) {
 
 		// path configuration has changed but can be hot reloaded: reload it
 		if _, ok := confsToReload[newPathConf.Name]; ok {
-			go pa.reloadConf(newPathConf)
+			pa.reloadConf(newPathConf)
 		}
 	}
 
